@@ -269,20 +269,68 @@ with eval_c (fuel : nat) (sk : sketch) (g cnt : Z) (st : sstate) (v : wv) {struc
       end
   end.
 
+(* control-flow combinators, parametrised by the evaluators of the next lower depth *)
+Definition exec_fn := Z -> sstate -> wv -> sstate * list wv.            (* counter, state, statement *)
+Definition cond_fn := Z -> sstate -> wv -> sstate * list wv * bool.
+Definition int_fn := Z -> sstate -> wv -> sstate * list wv * Z.
+
+Fixpoint run_list (ex : exec_fn) (cnt : Z) (st : sstate) (l : list wv) : sstate * list wv :=
+  match l with
+  | [] => (st, [])
+  | s :: r =>
+      let '(s1, e1) := ex cnt st s in
+      let '(s2, e2) := run_list ex cnt s1 r in
+      (s2, e1 ++ e2)
+  end.
+
+Fixpoint run_chain (ex : exec_fn) (ec : cond_fn) (cnt : Z) (els : list wv) (st : sstate) (l : list wv) : sstate * list wv :=
+  match l with
+  | [] => run_list ex cnt st els
+  | WL [c; WL body] :: r =>
+      let '(s1, e1, t) := ec cnt st c in
+      let '(s2, e2) := if t then run_list ex cnt s1 body else run_chain ex ec cnt els s1 r in
+      (s2, e1 ++ e2)
+  | _ :: _ => (st, [bad_ev])
+  end.
+
+Fixpoint run_while (ex : exec_fn) (ec : cond_fn) (c : wv) (K order : Z) (body : list wv)
+                   (k : nat) (n : Z) (st : sstate) : sstate * list wv * Z :=
+  match k with
+  | O => (st, [bad_ev], n)
+  | S k' =>
+      let '(s1, e1, go) :=
+        if order =? 0 then
+          let '(s1, e1, t) := ec n st c in (s1, e1, t && (n <? K))
+        else if n <? K then ec n st c
+        else (st, [], false) in
+      if go then
+        let '(s2, e2) := run_list ex n s1 body in
+        let '(s3, e3, n3) := run_while ex ec c K order body k' (n + 1) s2 in
+        (s3, e1 ++ e2 ++ e3, n3)
+      else (s1, e1, n)
+  end.
+
+Fixpoint run_for (ex : exec_fn) (ei : int_fn) (a : wv) (body : list wv) (cnt : Z)
+                 (k : nat) (i : Z) (st : sstate) : sstate * list wv :=
+  match k with
+  | O => (st, [bad_ev])
+  | S k' =>
+      let '(s1, e1, x) := ei cnt st a in
+      if i <? x then
+        let '(s2, e2) := run_list ex i s1 body in
+        let '(s3, e3) := run_for ex ei a body cnt k' (i + 1) s2 in
+        (s3, e1 ++ e2 ++ e3)
+      else (s1, e1)
+  end.
+
 Fixpoint exec (fuel : nat) (sk : sketch) (g cnt : Z) (st : sstate) (v : wv) {struct fuel} : sstate * list wv :=
   let bad := (st, [bad_ev]) in
   match fuel with
   | O => bad
   | S f =>
-      let exec_list :=
-        fix exec_list (cnt' : Z) (st' : sstate) (l : list wv) : sstate * list wv :=
-          match l with
-          | [] => (st', [])
-          | s :: r =>
-              let '(s1, e1) := exec f sk g cnt' st' s in
-              let '(s2, e2) := exec_list cnt' s1 r in
-              (s2, e1 ++ e2)
-          end in
+      let ex : exec_fn := fun cnt' st' s => exec f sk g cnt' st' s in
+      let ec : cond_fn := fun cnt' st' c => eval_c f sk g cnt' st' c in
+      let ei : int_fn := fun cnt' st' a => eval_i f sk g cnt' st' a in
       match v with
       | WL (WI tag :: args) =>
           if tag =? 30 then
@@ -292,54 +340,19 @@ Fixpoint exec (fuel : nat) (sk : sketch) (g cnt : Z) (st : sstate) (v : wv) {str
             end
           else if tag =? 32 then
             match args with
-            | [WL brs; WL els] =>
-                (fix chain (st' : sstate) (l : list wv) : sstate * list wv :=
-                   match l with
-                   | [] => exec_list cnt st' els
-                   | WL [c; WL body] :: r =>
-                       let '(s1, e1, t) := eval_c f sk g cnt st' c in
-                       let '(s2, e2) := if t then exec_list cnt s1 body else chain s1 r in
-                       (s2, e1 ++ e2)
-                   | _ :: _ => (st', [bad_ev])
-                   end) st brs
+            | [WL brs; WL els] => run_chain ex ec cnt els st brs
             | _ => bad
             end
           else if tag =? 33 then
             match args with
             | [c; WI K; WI order; WL body] =>
-                let '(s9, e9, n9) :=
-                  (fix loop (k : nat) (n : Z) (st' : sstate) : sstate * list wv * Z :=
-                     match k with
-                     | O => (st', [bad_ev], n)
-                     | S k' =>
-                         let '(s1, e1, go) :=
-                           if order =? 0 then
-                             let '(s1, e1, t) := eval_c f sk g n st' c in (s1, e1, t && (n <? K))
-                           else if n <? K then eval_c f sk g n st' c
-                           else (st', [], false) in
-                         if go then
-                           let '(s2, e2) := exec_list n s1 body in
-                           let '(s3, e3, n3) := loop k' (n + 1) s2 in
-                           (s3, e1 ++ e2 ++ e3, n3)
-                         else (s1, e1, n)
-                     end) (S (Z.to_nat K)) 0 st in
+                let '(s9, e9, n9) := run_while ex ec c K order body (S (Z.to_nat K)) 0 st in
                 (s9, e9 ++ [ev [3; n9]])
             | _ => bad
             end
           else if tag =? 34 then
             match args with
-            | [a; WL body] =>
-                (fix floop (k : nat) (i : Z) (st' : sstate) : sstate * list wv :=
-                   match k with
-                   | O => (st', [bad_ev])
-                   | S k' =>
-                       let '(s1, e1, x) := eval_i f sk g cnt st' a in
-                       if i <? x then
-                         let '(s2, e2) := exec_list i s1 body in
-                         let '(s3, e3) := floop k' (i + 1) s2 in
-                         (s3, e1 ++ e2 ++ e3)
-                       else (s1, e1)
-                   end) loop_cap 0 st
+            | [a; WL body] => run_for ex ei a body cnt loop_cap 0 st
             | _ => bad
             end
           else if tag =? 35 then
@@ -357,7 +370,7 @@ Fixpoint exec (fuel : nat) (sk : sketch) (g cnt : Z) (st : sstate) (v : wv) {str
             end
           else if tag =? 37 then
             match args with
-            | [WL body] => exec_list cnt st body
+            | [WL body] => run_list ex cnt st body
             | _ => bad
             end
           else bad
